@@ -97,7 +97,7 @@ def parse_ident(text: str):
 class Lookup:
     __slots__ = ("name", "key", "task", "reads0", "read", "served", "error", "live",
                  "b_dec", "e_dec", "b_w", "e_w", "ctx", "kwargs", "seq", "ref_error",
-                 "live_end", "served_mtime")
+                 "live_end", "served_mtime", "all_at_begin")
 
     def brief(self):
         return {"name": self.name, "key": list(self.key), "task": self.task,
@@ -291,6 +291,14 @@ class World:
         lk.ref_error = None
         lk.live_end = None
         lk.served_mtime = None
+        # every stored source of this name, whichever location currently wins the resolution
+        lk.all_at_begin = []
+        if self.cur_loop is not None and not self.cfg["store"].startswith("ns"):
+            try:
+                lk.all_at_begin = [(self.vers[loc], loc) for loc in self.locs(self.canon_name(name))
+                                   if loc in self.vers]
+            except Exception:  # noqa: BLE001
+                lk.all_at_begin = []
         self.lookups.append(lk)
         return lk
 
@@ -714,9 +722,16 @@ def do_par(w: World, op: dict):
                 live_set.add((lk.live[1], lk.live[2]))
             if lk.live_end is not None and lk.live_end[0] == "ok":
                 live_set.add((lk.live_end[1], lk.live_end[2]))
+            removed_in_window = False
             for (s, loc, ver, mt) in w.wlog:
-                if ver is not None and lk.b_w < s <= (lk.e_w if lk.e_w is not None else 1 << 60):
-                    live_set.add((ver, loc))
+                if lk.b_w < s <= (lk.e_w if lk.e_w is not None else 1 << 60):
+                    if ver is not None:
+                        live_set.add((ver, loc))
+                    else:
+                        removed_in_window = True
+            if removed_in_window:
+                # a deletion inside the window can make a later search path / loader win
+                live_set.update(lk.all_at_begin)
             if lk.served in live_set:
                 pass
             else:
